@@ -331,11 +331,11 @@ def run(ctx):
                     'accessors take the alternative of their kind', minimum=6)
     from rules import lib_core
     for cfg, fb in sorted(fbs.items()):
-        check_result(ctx, fb, rres)
-        lib_core.check_move_sites(ctx, fb, rmv, lambda f: f.file.endswith('algo/detail/core.hpp'))
+        ctx.guard(lambda: check_result(ctx, fb, rres))
+        ctx.guard(lambda: lib_core.check_move_sites(ctx, fb, rmv, lambda f: f.file.endswith('algo/detail/core.hpp')))
         fns = [f for f in lib_accessor.functions_with_accessors(fb, [CORE])]
-        lib_accessor.check(ctx, fb, ra, fns)
-        check_dispatch(ctx, fb, rd)
-        check_entries(ctx, fb, re_)
-        check_try(ctx, fb, rt)
-        lib_head.check(ctx, fb, cfg, rh, None)
+        ctx.guard(lambda: lib_accessor.check(ctx, fb, ra, fns))
+        ctx.guard(lambda: check_dispatch(ctx, fb, rd))
+        ctx.guard(lambda: check_entries(ctx, fb, re_))
+        ctx.guard(lambda: check_try(ctx, fb, rt))
+        ctx.guard(lambda: lib_head.check(ctx, fb, cfg, rh, None))
